@@ -203,6 +203,8 @@ def blist(bs):
 #   I1  bit-ior with a negative bignum operand whose two's complement has a clear top bit (same inference)
 #   X1  bit-xor of two non-negative bignums (only the "x shorter than y" branch can bite: it complements y for x)
 #   X2  bit-xor of two bignums, one of them negative (X1, plus no sign extension of a shorter negative operand)
+#   O1  bit-and / bit-ior / bit-xor whose result is -(2^(64k)), k >= the word count of both operands (the carry out
+#       of the top word is dropped when the result is converted back from two's complement)
 #   E1  bitwise-eqv with other than two arguments (defined as the complement of the n-ary xor)
 #   R33 (srfi 33) test-bit-field? / clear-bit-field are renames of procedures with (n start end) parameters
 # ---------------------------------------------------------------------------------------------------------
@@ -226,13 +228,31 @@ def top_clear_neg(v):
     return m > (1 << (W * n - 1))
 
 
+def active_causes():
+    """Cause ids that still have an entry in known_findings/C17.json.  Only those are noted: once a defect is repaired
+    and its entry removed, a case that meets the repaired class first and a still-open class later is attributed to
+    the open one (and a case that meets only repaired classes gets cause "-", so any disagreement there is new)."""
+    from .. import report
+    out = set()
+    findings, _ = report.load_findings("C17")
+    for f in findings:
+        v = f.get("match", {}).get("cause")
+        for c in (v if isinstance(v, list) else [v]):
+            if c:
+                out.add(c)
+    return out
+
+
+ACTIVE = active_causes()
+
+
 class Trace:
     def __init__(self):
         self.cause = None
         self.calls = 0
 
     def note(self, c):
-        if self.cause is None:
+        if self.cause is None and c in ACTIVE:
             self.cause = c
 
     # -- the seven primitives ---------------------------------------------------------------------------
@@ -245,18 +265,29 @@ class Trace:
             p = y if x < 0 else x
             if top_set_pos(p):
                 self.note("A1")
+        self.carry_lost(x, y, x & y)
         return x & y
+
+    def carry_lost(self, x, y, r):
+        """O1: the result is -(2^(64k)) with k >= the word counts of both operands: converting the k result words
+        (all zero) back from two's complement needs a carry into word k, which sexp_set_twos_complement drops."""
+        if r < 0 and is_big(r) and (-r) & (-r - 1) == 0 and ((-r).bit_length() - 1) % W == 0:
+            k = ((-r).bit_length() - 1) // W
+            if k >= max(nwords(x), nwords(y), 1):
+                self.note("O1")
 
     def bior(self, x, y):
         self.calls += 1
         if top_clear_neg(x) or top_clear_neg(y):
             self.note("I1")
+        self.carry_lost(x, y, x | y)
         return x | y
 
     def bxor(self, x, y):
         self.calls += 1
         if is_big(x) and is_big(y):
             self.note("X2" if (x < 0 or y < 0) else "X1")
+        self.carry_lost(x, y, x ^ y)
         return x ^ y
 
     def shift(self, x, c):
@@ -310,9 +341,11 @@ class Trace:
         return self.nary(self.bxor, 0, a)
 
     def eqv_(self, *a):
+        # specified: the associative extension of the binary eqv, identity -1.  chibi's current definition (the
+        # complement of the n-ary xor) agrees with it for two arguments only: E1
         if len(a) != 2:
             self.note("E1")
-        return self.bnot(self.nary(self.bxor, -1, a))
+        return self.nary(lambda i, j: self.bnot(self.bxor(i, j)), -1, a)
 
     def nand(self, *a):
         return self.bnot(self.nary(self.band, 0, a))
@@ -486,11 +519,6 @@ def gen_nary(rng, lib=""):
         v = f(v, x)
     names = ["a", "b", "c", "a"][:n]
     meth = {"bitwise-and": "and_", "bitwise-ior": "ior_", "bitwise-xor": "xor_", "bitwise-eqv": "eqv_"}[op]
-    if op == "bitwise-eqv":
-        # chibi's definition (complement of the n-ary xor) is only right for two arguments: the composition model
-        # cannot reproduce the specified value, so it is not cross-checked here
-        return mk("%s%s/%d" % (lib, op, n), "(%s%s %s)" % (pfx(lib), op, " ".join(names)), v,
-                  a if n >= 1 else None, b if n >= 2 else None, c if n >= 3 else None, cause="E1")
     return mk("%s%s/%d" % (lib, op, n), "(%s%s %s)" % (pfx(lib), op, " ".join(names)), v,
               a if n >= 1 else None, b if n >= 2 else None, c if n >= 3 else None,
               tr=lambda t: getattr(t, meth)(*args))
@@ -725,13 +753,23 @@ def gen_srfi33_field(rng, lib="33:"):
     size = e - pos
     m = mask(size) << pos
     op = rng.choice(["extract-bit-field", "test-bit-field?", "clear-bit-field", "replace-bit-field", "copy-bit-field"])
+    if op in ("test-bit-field?", "clear-bit-field") and abs(a) >= 4096:
+        # cost bound, not an oracle change: chibi currently takes these two as (n start end) (finding R33), so the
+        # integer lands in the `end' position and a large one makes it build a mask of that many *bits* (minutes,
+        # then out of memory).  Large operands of the (size position n) family are covered by the other three.
+        a = rng.choice([1, -1]) * (abs(a) % 4096)
+        pos, e = rnd_field(rng, a)
+        size = e - pos
+        m = mask(size) << pos
     if op == "extract-bit-field":
         return mk("33:" + op, "(s33:%s %d %d a)" % (op, size, pos), (a >> pos) & mask(size), a, tag=field_tag(a, pos, e),
                   tr=lambda t: t.and_(t.shift(a, -pos), t.mask(size)))
     if op == "test-bit-field?":
-        return mk("33:" + op, "(s33:%s %d %d a)" % (op, size, pos), sb(a & m), a, tag=field_tag(a, pos, e), cause="R33")
+        return mk("33:" + op, "(s33:%s %d %d a)" % (op, size, pos), sb(a & m), a, tag=field_tag(a, pos, e),
+                  cause="R33" if "R33" in ACTIVE else "-")
     if op == "clear-bit-field":
-        return mk("33:" + op, "(s33:%s %d %d a)" % (op, size, pos), a & ~m, a, tag=field_tag(a, pos, e), cause="R33")
+        return mk("33:" + op, "(s33:%s %d %d a)" % (op, size, pos), a & ~m, a, tag=field_tag(a, pos, e),
+                  cause="R33" if "R33" in ACTIVE else "-")
     if op == "replace-bit-field":
         nf = abs(b) & mask(size)             # new field within `size` bits
         return mk("33:" + op, "(s33:%s %d %d b a)" % (op, size, pos), (a & ~m) | (nf << pos), a, nf, tag=field_tag(a, pos, e),
